@@ -34,6 +34,14 @@ import (
 	"github.com/cloudflare/pint/verifharness/pipe"
 )
 
+// layCRLF: the layout asks for CR LF line endings.
+func layCRLF(lay json.RawMessage) bool {
+	var l struct {
+		Crlf bool `json:"crlf"`
+	}
+	return json.Unmarshal(lay, &l) == nil && l.Crlf
+}
+
 // strictable: the layout is a plain strict rule file (no wrapper), so diagnostics are collected in strict mode;
 // every other layout is linted in relaxed mode.
 func strictable(lay json.RawMessage) bool {
@@ -209,7 +217,7 @@ func newC06Linter() (*c06Linter, error) {
 	return l, nil
 }
 
-func (l *c06Linter) diags(file []string, strict bool, out *[]c06Diag) (perr string) {
+func (l *c06Linter) diags(file []string, strict, crlf bool, out *[]c06Diag) (perr string) {
 	defer func() {
 		if r := recover(); r != nil {
 			perr = fmt.Sprintf("panic: %v\n%s", r, debug.Stack())
@@ -225,7 +233,7 @@ func (l *c06Linter) diags(file []string, strict bool, out *[]c06Diag) (perr stri
 	}
 	defer os.RemoveAll(dir)
 	path := filepath.Join(dir, "rules.yml")
-	if err := os.WriteFile(path, []byte(layout.Content(file)), 0o644); err != nil {
+	if err := os.WriteFile(path, []byte(layout.ContentEOL(file, crlf)), 0o644); err != nil {
 		return err.Error()
 	}
 	var relaxed []*regexp.Regexp
@@ -243,7 +251,8 @@ func (l *c06Linter) diags(file []string, strict bool, out *[]c06Diag) (perr stri
 		if entry.PathError != nil || entry.Rule.Error.Err != nil {
 			continue
 		}
-		nodes := layout.RuleNodes(entry.Rule, file)
+		phys := layout.Phys(file, crlf)
+		nodes := layout.RuleNodes(entry.Rule, phys)
 		for _, chk := range l.cfg.GetChecksForEntry(l.ctx, l.gen, entry) {
 			for _, p := range chk.Check(l.ctx, entry, entries) {
 				for _, d := range p.Diagnostics {
@@ -258,10 +267,10 @@ func (l *c06Linter) diags(file []string, strict bool, out *[]c06Diag) (perr stri
 						}
 					}
 					cells := layout.DiagRange(d.FirstColumn, d.LastColumn, d.Pos)
-					rb, o := layout.ReadBack(file, cells)
+					rb, o := layout.ReadBackIn(phys, cells, d.Pos)
 					cd.Rb, cd.Out = layout.Abstract(layout.Collapse(rb)), o
 					cd.Exp = layout.Abstract(layout.Collapse(sliceValue(raw, d.FirstColumn, d.LastColumn)))
-					cd.Caret, cd.CExp = layout.Carets(file, d, cells)
+					cd.Caret, cd.CExp = layout.Carets(file, crlf, d, cells)
 					*out = append(*out, cd)
 				}
 			}
@@ -292,14 +301,15 @@ func init() {
 			for _, l := range file {
 				r.LineLen = append(r.LineLen, len(l))
 			}
-			r.Strict = layout.Parse(file, true)
-			r.Relaxed = layout.Parse(file, false)
+			crlf := layCRLF(cs.Lay)
+			r.Strict = layout.ParseEOL(file, true, crlf)
+			r.Relaxed = layout.ParseEOL(file, false, crlf)
 			if a, b := mustJSON(r.Strict), mustJSON(r.Relaxed); a == b {
 				r.Same = true
 				r.Relaxed = layout.File{Groups: []layout.Group{}, Flat: []layout.Rule{}}
 			}
 			if !nodiag {
-				r.LintPanic = lint.diags(file, r.Strict.Err == "" && strictable(cs.Lay), &r.Diags)
+				r.LintPanic = lint.diags(file, r.Strict.Err == "" && strictable(cs.Lay), crlf, &r.Diags)
 			}
 			recs[i] = r
 		})
